@@ -313,12 +313,13 @@ Section Codec.
 
   Theorem decode_encode lb d out maxsz :
     bytes d -> 9 + len (compress d) < M64 / 4 -> len d < M64 / 2 ->
+    len d / 1032 <= 9 + len (compress d) ->       (* the ratio guard of the decoder (commit 5c6a588) *)
     0 < o_esz out -> (len d) mod (o_esz out) = 0 ->
     (maxsz <= 0 \/ len d <= maxsz) ->
     (o_owner out = false -> len d <= o_cnt out * o_esz out < M64) ->
     sc_decode_with unc (sc_encode_with compress lb d) out maxsz = Ok (len d / o_esz out, d).
   Proof.
-    intros Hd Hc Hn Hesz Hmod Hmax Hview.
+    intros Hd Hc Hn Hratio Hesz Hmod Hmax Hview.
     unfold M64 in Hn. change (18446744073709551616 / 2) with 9223372036854775808 in Hn.
     pose proof (len_nonneg d) as Hd0. pose proof (len_nonneg (compress d)) as Hc0.
     unfold sc_encode_with. set (p := info_header (len d) ++ compress d).
@@ -337,6 +338,9 @@ Section Codec.
     unfold p at 1. rewrite payload_fc. cbn [bind]. change (negb (122 =? 122)) with false. cbv iota.
     unfold p at 1. rewrite payload_hdr. cbn [bind].
     rewrite be_value_be8 by (unfold M64; lia).
+    assert (Hg : dec_guard_ratio (len d) (len p) = false).
+    { unfold dec_guard_ratio. apply Z.ltb_ge. rewrite Hlp. exact Hratio. }
+    rewrite Hg.
     rewrite Hmod. change (negb (0 =? 0)) with false. cbv iota.
     assert (Hm : (0 <? maxsz) && (maxsz <? len d) = false).
     { destruct (Z.ltb_spec 0 maxsz); destruct (Z.ltb_spec maxsz (len d)); cbn [andb]; auto; lia. }
@@ -363,6 +367,7 @@ Section Zlib.
 
   Theorem decode_encode_zlib lvl lb d out maxsz :
     bytes d -> 9 + len (deflate lvl d) < M64 / 4 -> len d < M64 / 2 ->
+    len d / 1032 <= 9 + len (deflate lvl d) ->    (* deflate expands at most 1032 : 1 (a fact about the format, assumed) *)
     0 < o_esz out -> (len d) mod (o_esz out) = 0 ->
     (maxsz <= 0 \/ len d <= maxsz) ->
     (o_owner out = false -> len d <= o_cnt out * o_esz out < M64) ->
@@ -386,11 +391,8 @@ Theorem decode_encode_stored lb d out maxsz :
 Proof.
   intros Hd Hn. unfold sc_decode, sc_encode_stored.
   assert (Hn2 : len d < M64 / 2) by (unfold M64 in *; change (18446744073709551616 / 8) with 2305843009213693952 in Hn; change (18446744073709551616 / 2) with 9223372036854775808; lia).
-  apply (decode_encode noncompress nonuncompress).
-  - exact noncompress_bytes.
-  - intros d0 cap nil Hd0 Hl Hcap Hnil. apply stored_roundtrip; auto.
-  - exact Hd.
-  - rewrite (noncompress_len d Hd Hn2). pose proof (len_nonneg d) as H0.
+  assert (Hb : len d <= len (noncompress d) /\ 9 + len (noncompress d) < M64 / 4).
+  { rewrite (noncompress_len d Hd Hn2). pose proof (len_nonneg d) as H0.
     unfold sc_io_noncompress_bound. unfold M64 in *. change (18446744073709551616 / 8) with 2305843009213693952 in Hn.
     change (18446744073709551616 / 4) with 4611686018427387904.
     change (s32 (65531 - 1)) with 65530. change (u64 65530) with 65530.
@@ -402,8 +404,17 @@ Proof.
       assert (Hq2 : 65531 * q <= len d + 65530) by (unfold q; apply Z.mul_div_le; lia).
       rewrite (u64_id (2 + 5 * q + len d)) by (unfold M64; lia). rewrite u64_id by (unfold M64; lia). lia.
     + change (u64 (5 * 1)) with 5. change (u64 (2 + 5)) with 7.
-      rewrite (u64_id (7 + len d)) by (unfold M64; lia). rewrite u64_id by (unfold M64; lia). lia.
+      rewrite (u64_id (7 + len d)) by (unfold M64; lia). rewrite u64_id by (unfold M64; lia). lia. }
+  destruct Hb as [Hge Hlt].
+  apply (decode_encode noncompress nonuncompress).
+  - exact noncompress_bytes.
+  - intros d0 cap nil Hd0 Hl Hcap Hnil. apply stored_roundtrip; auto.
+  - exact Hd.
+  - exact Hlt.
   - exact Hn2.
+  - (* the ratio guard: the stored format never shrinks the data *)
+    pose proof (len_nonneg d) as H0.
+    assert (len d / 1032 <= len d) by (apply Z.div_le_upper_bound; lia). lia.
 Qed.
 
 (* ---- 5. sc_io_decode_info reads the original size and the format character ---------------------------- *)
